@@ -1,2 +1,47 @@
-(* props/C11.v — placeholder until the theorems of this property are added. *)
-From Prophy Require Import Bytes Schema Layout Wire PcModel.
+(* props/C11.v — copy_from yields an equal, fully independent message.
+   In the reference model a message is an immutable value tree, so copies are independent by
+   construction; the theorems state that explicitly, and the correspondence run (checks/C11.py)
+   is what compares the Python objects, which can alias, with this alias-free model on
+   histories that mutate both messages after copying at every nesting depth. *)
+From Coq Require Import ZArith List Bool Lia.
+From Prophy Require Import Bytes Schema Layout Wire ApiSpec Views ApiFacts.
+Import ListNotations.
+Local Open Scope Z_scope.
+
+(* after dst.copy_from(src) both hold the same tree whatever dst held before, and src is unchanged *)
+Theorem C11_copy_equal :
+  forall t a b dst_b,
+    let st' := fst (hstep t (a, b) (HCopy dst_b)) in
+    fst st' = snd st' /\ (if dst_b then fst st' = a else snd st' = b).
+Proof. exact copy_from_equal. Qed.
+Print Assumptions C11_copy_equal.
+
+(* equal trees have identical encodings (the encoding is a function of the tree) *)
+Theorem C11_equal_encodings :
+  forall e t a b dst_b,
+    let st' := fst (hstep t (a, b) (HCopy dst_b)) in wire e t (fst st') = wire e t (snd st').
+Proof. intros e t a b dst_b. cbn zeta. destruct (copy_from_equal t a b dst_b) as [H _]. cbn zeta in H. rewrite H. reflexivity. Qed.
+Print Assumptions C11_equal_encodings.
+
+(* any later operation on one message, performed or rejected, at any depth, leaves the other untouched *)
+Theorem C11_independent :
+  forall t a b on_b path o,
+    let st' := fst (hstep t (a, b) (HOp on_b path o)) in if on_b then fst st' = a else snd st' = b.
+Proof. exact op_leaves_other. Qed.
+Print Assumptions C11_independent.
+
+(* extend() of a composite array with another message's elements leaves the source untouched *)
+Theorem C11_extend_source_unchanged :
+  forall t a b dpath i spath si,
+    snd (fst (hstep t (a, b) (HExtendFrom false dpath i true spath si))) = b /\
+    fst (fst (hstep t (a, b) (HExtendFrom true dpath i false spath si))) = a.
+Proof. exact extend_from_leaves_source. Qed.
+Print Assumptions C11_extend_source_unchanged.
+
+(* both messages stay valid through any such history *)
+Theorem C11_histories_valid :
+  forall t hs, legal t = true ->
+    valid t (fst (run_hist t hs (default t, default t))) = true /\
+    valid t (snd (run_hist t hs (default t, default t))) = true.
+Proof. exact hist_reachable_valid. Qed.
+Print Assumptions C11_histories_valid.
